@@ -704,6 +704,14 @@ namespace vf_coll
                     break;
                 maxn = maxn * 2 / 3; // the block source of this kind has a largest block size
             }
+            // the documented requirement on the block size is only "max_node_size < block_size / number of pools": now and then a block
+            // that just meets it (log2 buckets with a large maximum: the list array still fits into the first block)
+            if (!identity && maxn >= 100 && r.chance(12))
+            {
+                bs0 = 9 * (maxn + 1) + r.below(300) + (maxn > 128 ? 0 : 600);
+                if (bs0 <= Src::max_block)
+                    flag("tight-block");
+            }
             pl                = placement(r.below(3));
             op("setup %s max_node=%zu bs=%zu placement=%s", member ? "member" : "traits", maxn, bs0, placement_name(pl));
             units.push_back(fresh(pl));
